@@ -17,6 +17,10 @@ CLAIMS = {
    text="TLC checks the construction state machine (parse -> range check -> accept/reject) for all 6 types x 12 value classes x 4 routes; every cell is concretised with exact bit patterns (bounds +-1 ulp, +-0, subnormals, NaN payloads, infinities, huge) and run through try_from / FromStr / serde_json / composite Location, Weather and Params documents; each recorded attempt (plus seeded random bit patterns) is judged by TLC from the logged IEEE bits against the documented bounds, incl. bit-identical read-back",
    note="Rust float formatting and serde_json number printing are trusted to round-trip; for JSON routes the reference value is the number serde_json itself delivers for the literal",
    tech="TLA+ spec (Bounded/BoundedDefs) + TLC model checking + decision-table replay + TLC trace validation on IEEE bit patterns", ref="§5 C18"),
+ "C15": dict(
+   text="TLC explores every interleaving of main thread, collector and workers of ParRange.tla (one action per hook point; days 0..6, parallelism 1..4, threshold 0..2) for safety (result = sequential map, no send to a gone receiver, no duplicate) and termination under weak fairness; the real prayer_times_dt_rng_block is run hooked (parallelism override 1..64, 0..6000 days, thresholds 0..400, 8 delay profiles at every send/recv/spawn/drop point) and every run's totally ordered event log is validated by TLC as a behaviour of the same spec, all invariants evaluated in every state, result compared with the sequential API",
+   note="std mpsc/thread::scope semantics as modelled; the hooks' ordering lock makes send and drop(tx) atomic with their log entries; worker Sender drops are unlogged and composed into the recv-Err step; hangs are detected by a 25 s watchdog",
+   tech="TLA+ spec (ParRange) + TLC model checking incl. liveness + TLC trace validation of hooked concurrent executions", ref="§5 C15"),
 }
 NA_REASON = "check under construction in this round (DESIGN.md §8 build order); not yet claimed"
 
